@@ -24,7 +24,16 @@ def run(ctx):
     enc = []
     for _ in range(ctx.n(500, 6000)):
         k = rng.random()
-        if k < 0.7:
+        if k < 0.08:
+            # nearly full and full cells (1009..1023 data bits, 0..4 references)
+            leaf = (-1, cells.rand_bits(rng, rng.choice([0, 5, 1023])), [])
+            nr = rng.randrange(5)
+            dag = [leaf] * 0 + [(-1, cells.rand_bits(rng, rng.choice([3, 8])) + format(j, "03b"), []) for j in range(nr)]
+            dag.append((-1, cells.rand_bits(rng, rng.choice([1009, 1015, 1016, 1017, 1022, 1023])), list(range(nr))))
+            if rng.random() < 0.5:
+                dag = [leaf] + [(t, b, [x + 1 for x in r]) for t, b, r in dag]
+                dag.append((-1, cells.rand_bits(rng, 7), [0, len(dag) - 1]))
+        elif k < 0.7:
             dag = cells.rand_ordinary_dag(rng, rng.choice([1, 2, 3, 5, 8, 20]), share=rng.choice([0, .4]), max_bits=200)
         else:
             dag = cells.rand_exotic_dag(rng, rng.choice([2, 5, 10]), valid=True)
